@@ -13,6 +13,7 @@ pub fn run(ctx: &Ctx, rep: &mut Report) {
     let dir = ctx.scratch.join("w");
     std::fs::create_dir_all(&dir).unwrap();
     case_loop(ctx, rep, |case, seed, rep| match ctx.prop.as_str() {
+        "C07" if case % 5 == 4 => aligned_case(ctx, &dir, case, seed, rep),
         "C07" => crash_case(ctx, &dir, case, seed, rep),
         "C08" if case % 8 == 3 => shapes_case(ctx, &dir, case, seed, rep),
         _ => history_case(ctx, &dir, case, seed, rep),
@@ -1289,6 +1290,119 @@ fn shapes_case(ctx: &Ctx, dir: &std::path::Path, case: u64, seed: u64, rep: &mut
     }
     let ops = hist.ops.clone();
     if ndeps < 100 {
+        rep.sample(|| J::obj().with("case", J::i(case)).with("history", J::Arr(ops)));
+    }
+    let _ = world;
+}
+
+// ------------------------------------------------------------------------
+// C07(c): a log whose records end exactly on the reader's buffer boundaries
+
+/// An ASCII path of exactly `len` bytes (components of at most 200 bytes).
+fn exact_name(tag: &str, len: usize) -> String {
+    let mut s = String::with_capacity(len);
+    s.push_str(tag);
+    let mut comp = s.len();
+    while s.len() < len {
+        if comp >= 200 && s.len() + 2 <= len {
+            s.push('/');
+            comp = 0;
+        } else {
+            s.push('a');
+            comp += 1;
+        }
+    }
+    s.truncate(len);
+    s
+}
+
+/// No crash at all: a log of more than 8 KiB in which a record ends exactly at a multiple of 8192 bytes
+/// (the size of the buffered reader's window) must load like any other.
+fn aligned_case(ctx: &Ctx, dir: &std::path::Path, case: u64, seed: u64, rep: &mut Report) {
+    let mut rng = Rng::new(seed);
+    let mut opts = GenOpts::default();
+    opts.max_steps = 5;
+    opts.pools = false;
+    let proj = gen_project(&mut rng, &opts);
+    clear_dir(dir);
+    let mut world = World::new(dir.to_path_buf(), proj);
+    world.init_sources(&mut rng);
+    world.write_manifest();
+    let mut hist = Hist { ops: vec![], builds: 0, edits_between: false, sig: fnv(b"aligned") };
+    let mk_step = |id: &str, out: String, src: String| Step {
+        id: id.to_string(),
+        outs: vec![out],
+        iouts: vec![],
+        ins: vec![src],
+        imps: vec![],
+        oos: vec![],
+        vals: vec![],
+        phony: false,
+        ver: 1,
+        pool: None,
+        rsp: None,
+        depfile: None,
+        msvc: false,
+        desc: None,
+        effect: Effect::Write,
+        extra_reads: vec![],
+        discovers: false,
+    };
+    let build = |world: World, hist: &mut Hist, rep: &mut Report, rng: &mut Rng, expect_noop: bool, what: &str| -> Option<World> {
+        let inv = Inv { j: 64, k: None, policy: Policy::Random, seed: rng.next(), ..Default::default() };
+        let pb = world.proj.clone();
+        let pred = predict_inv(&world, &inv);
+        let (w, out) = run_inv(world, &inv);
+        rep.evaluations += 1;
+        hist.builds += 1;
+        hist.ops.push(J::obj().with(what, inv.to_json()).with("started", J::Arr(out.started.iter().map(|v| J::strs(v.iter().cloned())).collect())).with("result", J::s(format!("{:?}", out.result))));
+        if !judge_inv(ctx, rep, case, hist, &pb, &pred, &inv, &out, &w, expect_noop) {
+            return None;
+        }
+        Some(w)
+    };
+    let Some(w) = build(world, &mut hist, rep, &mut rng, false, "build") else { return };
+    world = w;
+    let src = world.proj.sources[0].clone();
+    let boundaries = rng.range(1, 3);
+    let mut made = 0;
+    for round in 0..8 {
+        if made >= boundaries || ctx.expired() {
+            break;
+        }
+        let size = std::fs::metadata(world.db_path()).map(|m| m.len() as usize).unwrap_or(0);
+        // the next append is the path record of the new output: 2 bytes of length, then the name
+        let need = (8192 - ((size + 2) % 8192)) % 8192;
+        let id = format!("al{}", round);
+        if (12..=3000).contains(&need) {
+            world.proj.steps.push(mk_step(&id, exact_name(&format!("AL{}_", round), need), src.clone()));
+            made += 1;
+            hist.ops.push(J::obj().with("add-step-ending-on-boundary", J::i(size + 2 + need)));
+        } else {
+            // not reachable with one name: pad the log first
+            world.proj.steps.push(mk_step(&id, exact_name(&format!("PAD{}_", round), 2500 + rng.below(500)), src.clone()));
+            hist.ops.push(J::obj().with("add-padding-step", J::i(size)));
+        }
+        world.write_manifest();
+        let Some(w) = build(world, &mut hist, rep, &mut rng, false, "build") else { return };
+        world = w;
+        let Some(w) = build(world, &mut hist, rep, &mut rng, true, "rebuild") else { return };
+        world = w;
+    }
+    if made > 0 {
+        rep.count("aligned_log_histories", 1);
+        // one more round trip: edit, build, no-op
+        let s = rng.pick(&world.proj.sources.clone()).clone();
+        world.write_source(&s, rng.next());
+        hist.edits_between = true;
+        let Some(w) = build(world, &mut hist, rep, &mut rng, false, "build-after-edit") else { return };
+        world = w;
+        let Some(w) = build(world, &mut hist, rep, &mut rng, true, "rebuild") else { return };
+        world = w;
+        let size = std::fs::metadata(world.db_path()).map(|m| m.len()).unwrap_or(0);
+        rep.max("max_log_bytes", size);
+        rep.nontrivial.insert(fnv_combine(hist.sig, size));
+        let ops = hist.ops.clone();
         rep.sample(|| J::obj().with("case", J::i(case)).with("history", J::Arr(ops)));
     }
     let _ = world;
